@@ -112,7 +112,7 @@ class VM:
         self.mir = mir; self.alg = alg; self.inst = inst or {}
         self.models = []            # (compiled regex, handler)
         self.solver = z3.Solver(); self.solver.set('timeout', timeout_ms)
-        self.nq = 0; self.nstmt = 0; self.solver_time = 0.0
+        self.nq = 0; self.nstmt = 0; self.solver_time = 0.0; self.max_stmts = None
         self.fns_used = set(); self.models_used = set()
         self.enums = mir.load_enums()
         self.loop_bound = None; self.max_call_depth = max_call_depth
@@ -587,6 +587,10 @@ class VM:
                 out = h(self, m, callee, args)
                 if out is not NotImplemented:
                     return out
+        if re.match(r'^<\{closure@[^}]*\} as Fn(Mut|Once)?<.*>>::call(_mut|_once)?$', callee):
+            # direct call of a closure value through the Fn* traits: arguments arrive as one tuple
+            tup = args[1]; targs = list(tup.f) if isinstance(tup, Struct) else []
+            return self.call_closure(m, args[0], targs)
         from . import intrinsics, iters
         out = iters.dispatch(self, m, callee, args)
         if out is not NotImplemented: return out
@@ -700,6 +704,7 @@ class VM:
                     visits = dict(visits); visits[bb] = visits.get(bb, 0) + 1
                     if visits[bb] > self.loop_bound: raise BoundExceeded('%s bb%d' % (fn.name, bb))
                 st = stmts[i]; i += 1; self.nstmt += 1
+                if self.max_stmts is not None and self.nstmt > self.max_stmts: raise BoundExceeded('statement budget %d exhausted in %s (path explosion or unbounded loop)' % (self.max_stmts, fn.name))
                 k = st.kind
                 if self.trace: print('   ' * m.depth, fn.name.split('::')[-1], 'bb%d' % bb, st.text)
                 if k == 'nop': continue
